@@ -120,7 +120,19 @@ func genWorkload(rng *rand.Rand, P, nops int) [][]fcOp {
 				out = "fail"
 			}
 			var o fcOp
-			switch rng.Intn(10) {
+			switch rng.Intn(11) {
+			case 10:
+				// any use (also clunk / remove / walking from it) of the fid another process is possibly allocating right
+				// now: the property's discipline only forbids allocating the same new fid from two requests at once
+				other := 2 + (p+1+rng.Intn(P-1))%P
+				k := []string{"stat", "open", "read", "wstat", "clunk", "remove", "walk"}[rng.Intn(7)]
+				o = fcOp{k, other, 0, out}
+				if k == "walk" {
+					o.NF = own
+				}
+				if k == "read" {
+					o.Out = "ok"
+				}
 			case 0, 1:
 				o = fcOp{"stat", s, 0, out}
 			case 2:
@@ -265,6 +277,95 @@ func runFidConc(run int, w [][]fcOp, jitter int64, res *hx.Result) []fcEvent {
 	return append([]fcEvent{}, r.events[:last+1]...)
 }
 
+// runDirected: a walk that allocates fid 5 is parked inside the FileSys while a second request names fid 5;
+// then the walk is released (succeeding or failing).  Both must return; the history is validated like the others.
+func runDirected(run int, op2 string, walkOut string, res *hx.Result) []fcEvent {
+	r := &fcRun{run: run, outOf: map[int]string{}}
+	fs := sfs.New()
+	parked := make(chan struct{}, 1)
+	release := make(chan struct{})
+	fs.Decide = func(call string, h *sfs.Handle) sfs.Expect { return sfs.Expect{Call: call, Out: "ok", Dir: true} }
+	fs.DecideCtx = func(ctx context.Context, call string, h *sfs.Handle) sfs.Expect {
+		out := "ok"
+		if p, ok := ctx.Value(procKey{}).(int); ok {
+			r.mu.Lock()
+			if r.outOf[p] == "fail" {
+				out = "fail"
+			}
+			r.mu.Unlock()
+		}
+		return sfs.Expect{Call: call, Out: out, Dir: true}
+	}
+	fs.Gate = func(ctx context.Context, enter bool, call string, h *sfs.Handle) {
+		p, _ := ctx.Value(procKey{}).(int)
+		if h != nil {
+			if enter {
+				r.log(fcEvent{E: "fse", P: p, H: h.ID, K: call})
+			} else {
+				r.log(fcEvent{E: "fsx", P: p, H: h.ID, K: call})
+			}
+		}
+		if enter && p == 1 && call == "walk" {
+			parked <- struct{}{}
+			<-release
+		}
+	}
+	sess := p9p.SFileSys(fs)
+	w := [][]fcOp{{{"walk", 0, 5, walkOut}}, {{op2, 5, 4, "ok"}}}
+	call := func(p int, o fcOp) bool {
+		ctx := context.WithValue(context.Background(), procKey{}, p)
+		r.mu.Lock()
+		r.outOf[p] = o.Out
+		r.mu.Unlock()
+		r.log(fcEvent{E: "inv", P: p, K: o.K, F: o.F, NF: o.NF, Out: o.Out})
+		var err error
+		ok, dump := hx.RunTimed(4*time.Second, func() { err = doOp(ctx, sess, o) })
+		if !ok {
+			gs := hx.GoroutinesWith(dump, "p9p.(*session)", "sync.(*Mutex).Lock")
+			d := fmt.Sprintf("%s(fid %d) issued while a walk that allocates fid %d was in progress (walk outcome: %s) never returns although every FileSys call returned", o.K, o.F, o.F, walkOut)
+			if len(gs) > 0 {
+				d += "\n" + hx.Trunc(gs[0], 1500)
+			}
+			res.Violate("hang", "conc-hang:"+o.K+":during-walk-"+walkOut, d, map[string]interface{}{"workload": w})
+			return false
+		}
+		r.log(fcEvent{E: "ret", P: p, K: o.K, Res: classOf(err)})
+		return true
+	}
+	call(0, fcOp{"attach", 0, 0, "ok"})
+	var wg sync.WaitGroup
+	okAll := true
+	var mu sync.Mutex
+	wg.Add(1)
+	go func() {
+		defer wg.Done()
+		if !call(1, w[0][0]) {
+			mu.Lock()
+			okAll = false
+			mu.Unlock()
+		}
+	}()
+	<-parked
+	wg.Add(1)
+	go func() {
+		defer wg.Done()
+		if !call(2, w[1][0]) {
+			mu.Lock()
+			okAll = false
+			mu.Unlock()
+		}
+	}()
+	time.Sleep(3 * time.Millisecond) // let the second request reach the reserved fid's lock
+	close(release)
+	wg.Wait()
+	if !okAll {
+		return nil
+	}
+	r.mu.Lock()
+	defer r.mu.Unlock()
+	return append([]fcEvent{}, r.events...)
+}
+
 func FidConc(args []string) {
 	fl := flag.NewFlagSet("fidconc", flag.ExitOnError)
 	out := fl.String("out", "", "result file")
@@ -310,6 +411,29 @@ func FidConc(args []string) {
 		}
 		res.Evaluations++
 	}
+	// directed: every kind of request on a fid while the walk allocating it is inside the file system
+	nd := 0
+	for rep := 0; rep < 3; rep++ {
+		for _, op2 := range []string{"stat", "open", "read", "wstat", "clunk", "remove", "walk"} {
+			for _, wo := range []string{"ok", "fail"} {
+				nd++
+				ev := runDirected(*n+nd, op2, wo, res)
+				if ev == nil {
+					continue
+				}
+				sig := ""
+				for _, e := range ev {
+					enc.Encode(e)
+					nev++
+					sig += fmt.Sprint(e.E, e.P, e.K, e.Res, ";")
+				}
+				enc.Encode(fcEvent{E: "reset", Run: *n + nd})
+				distinct[sig] = true
+				res.Evaluations++
+			}
+		}
+	}
 	res.Distinct = len(distinct)
 	res.Set("events", nev)
+	res.Set("directed_scenarios", nd)
 }
